@@ -920,11 +920,30 @@ class OmniParser(PVLParser):
     all forms of "PVL" that are thrown at it.
     """
 
-    def _empty_value(self, pos):
-        eq_pos = self.doc.rfind("=", 0, pos)
-        lc = linecount(self.doc, eq_pos)
+    # Position in self.doc of the equals sign parsed last.
+    _equals_pos = 0
+
+    def _empty_value(self):
+        # The value is missing after the equals sign that was parsed last.
+        # (Searching the text backwards for an "=" would also find one
+        # inside a comment.)
+        lc = linecount(self.doc, self._equals_pos)
         self.errors.append(lc)
         return EmptyValueAtLine(lc)
+
+    def parse_around_equals(self, tokens: abc.Generator) -> None:
+        """Extends the parent function to note the position of the
+        equals sign, which is where an empty value is reported.
+        """
+        self.parse_WSC_until(None, tokens)
+        try:
+            t = next(tokens)
+            tokens.send(t)
+            if t == "=":
+                self._equals_pos = t.pos
+        except StopIteration:
+            pass
+        return super().parse_around_equals(tokens)
 
     def parse(self, s: str):
         """Extends the parent function.
@@ -937,6 +956,7 @@ class OmniParser(PVLParser):
         """
         nodash = re.sub(r"-[\n\r\f]\s*", "", s)
         self.doc = nodash
+        self._equals_pos = 0
 
         return super().parse(nodash)
 
@@ -965,7 +985,10 @@ class OmniParser(PVLParser):
                 if last_token.is_parameter_name():
                     # Fix the previous entry
                     module.pop()
-                    module.append(last_k, self._empty_value(t.pos))
+                    module.append(last_k, self._empty_value())
+                    # From here on the equals sign just seen is the one
+                    # that a value may be missing after.
+                    self._equals_pos = t.pos
                     # Now use last_token as the parameter name
                     # for the next assignment, and we must
                     # reproduce the last part of parse-assignment:
@@ -976,9 +999,7 @@ class OmniParser(PVLParser):
                         self.parse_statement_delimiter(tokens)
                         module.append(str(last_token), value)
                     except StopIteration:
-                        module.append(
-                            str(last_token), self._empty_value(t.pos + 1)
-                        )
+                        module.append(str(last_token), self._empty_value())
                         return module, False  # return through parse_module()
                 else:
                     # The previous value cannot be a parameter name, so
@@ -1013,8 +1034,7 @@ class OmniParser(PVLParser):
             return super().parse_assignment_statement(tokens)
         except ParseError as err:
             if err.token is not None:
-                after_eq = self.doc.find("=", err.token.pos) + 1
-                return str(err.token), self._empty_value(after_eq)
+                return str(err.token), self._empty_value()
             else:
                 raise
 
@@ -1038,6 +1058,6 @@ class OmniParser(PVLParser):
             # if kw.casefold() == t.casefold():
             # print('match')
             tokens.send(t)
-            return self._empty_value(t.pos)
+            return self._empty_value()
         else:
             raise ValueError
